@@ -11,7 +11,9 @@
                              add_class_arguments of a class whose signature has the default, and a class-typed option;
           on the accepted result: parser.validate(cfg), parser.parse_object(cfg) == cfg (meta included, kind-exact),
           dump -> parse_string -> dump byte for byte (format yaml and json).
-  TRACE   (code -> spec) the same for seeded random type hints up to depth 4.
+  TRACE   (code -> spec) the same for seeded random type hints up to depth 4, for class specs (opaque values: List[Base], ...) and,
+          round 4, for class specs given through a Callable type (Callable[..., Base], Callable[[int], Base], Optional[...]) next to
+          the same spec given through the plain class type: Trace_Types.CheckCallableSpec (fixed point; dumped tree = SerForm(value)).
   Every recorded observation is validated by TLC against Trace_Types.CheckFix: the Ref clauses (validate passes, second =
   first, dumps identical) decide the verdict, the Alg clauses (the transcription predicts the same first / second result and
   config representation) are drift.
@@ -22,9 +24,10 @@ import copy
 import dataclasses
 import json
 import os
+import pathlib
 import sys
 from datetime import timedelta
-from typing import Dict, List
+from typing import Callable, Dict, List, Optional, Set, Tuple
 
 import yaml
 
@@ -305,8 +308,21 @@ class Sub2(Base):
         pass
 
 
+class Sub3(Base):  # round 4: no init arg is a plain scalar once parsed; the first parameter is the one a Callable[[int], Base] leaves to its caller
+    def __init__(self, n: int = 0, e: ty.E = ty.E.A, tp: Tuple[int, int] = (1, 2), s: Set[int] = {1}, p: pathlib.Path = pathlib.Path("x"),  # noqa: B006
+                 t: timedelta = timedelta(days=1), inner: Inner = Inner(a=2)):
+        pass
+
+
+class Sub4(Base):
+    def __init__(self, n: int = 0, es: List[ty.E] = (ty.E.A,), d: Optional[Dict[str, Tuple[int, int]]] = None, o: Optional[ty.E] = None, t: Optional[timedelta] = None):
+        pass
+
+
 def alpha_any(v):
     """like alpha_val, with Namespaces (kind ns) kept apart from dicts"""
+    if isinstance(v, pathlib.PurePath):
+        return {"k": "pypath", "v": str(v)}
     if isinstance(v, Namespace):
         return {"k": "ns", "v": [[{"k": "str", "v": str(k)}, alpha_any(x)] for k, x in vars(v).items()]}
     if type(v) is dict:
@@ -337,6 +353,51 @@ def _work_opaque(job):
         for ch in ("obj", "arg"):
             call = (lambda: parser.parse_object({KEY: json.loads(json.dumps(val))})) if ch == "obj" else (lambda: parser.parse_args([f"--{KEY}={json.dumps(val)}"]))
             out.append((ch, val, observe_fix(parser, KEY, call, alpha=alpha_any)))
+    return {"label": label, "out": out}
+
+
+CALLABLE_TYPES = {"Callable[...,Base]": Callable[..., Base], "Callable[[int],Base]": Callable[[int], Base], "Optional[Callable[[int],Base]]": Optional[Callable[[int], Base]]}
+SKIPPED = "n"  # Callable[[int], Base] / Callable[..., Base]: skip_args = 1, the first parameter of the class is the caller's
+
+
+def callable_jobs(tier):
+    """class specs given through a Callable type, each next to the route through the plain class type (`--m: Base`)"""
+    c3, c4 = f"{__name__}.Sub3", f"{__name__}.Sub4"
+    vals = [{"class_path": c3, "init_args": {"e": "B", "tp": [3, 4], "s": [5, 6], "p": "some/dir", "t": "25:00:00", "inner": {"a": 3, "e": "A"}}},
+            {"class_path": c3},
+            {"class_path": c3, "init_args": {"tp": [0, -1], "s": [], "t": "1:00:00"}},
+            {"class_path": c4, "init_args": {"es": ["A", "B", "A"], "d": {"x": [1, 2], "y": [3, 4]}, "o": "B", "t": "24:00:00"}},
+            {"class_path": c4}]
+    if tier != "quick":
+        vals += [{"class_path": c3, "init_args": {"e": "A", "inner": {"e": "B"}, "p": "/abs/file.txt", "s": [2, 1, 3]}},
+                 {"class_path": c3, "init_args": {"inner": {"a": "7"}, "t": "0:00:00.5", "tp": ["1", "2"]}},
+                 {"class_path": c4, "init_args": {"es": [], "d": {}, "t": "-1 day, 23:00:00"}},
+                 {"class_path": c4, "init_args": {"d": {"k": ["5", 6]}, "o": None}},
+                 {"class_path": "Sub3", "init_args": {"e": "B"}}, "Sub4", c3]
+    return [(label, [val]) for label in CALLABLE_TYPES for val in vals]  # one job per (type, spec): they run side by side
+
+
+def _work_callable(job):
+    label, values = job
+    parser = ty.make_parser(CALLABLE_TYPES[label])
+    plain = ty.make_parser(Base)
+    out = []
+    for val in values:
+        pval = json.loads(json.dumps(val))
+        if isinstance(pval, str):
+            pval = {"class_path": pval}
+        pval.setdefault("init_args", {})[SKIPPED] = 7
+        po = observe_fix(plain, KEY, lambda: plain.parse_object({KEY: json.loads(json.dumps(pval))}), alpha=alpha_any)
+        for ch in ("obj", "arg"):
+            text = val if isinstance(val, str) else json.dumps(val)
+            call = (lambda: parser.parse_object({KEY: json.loads(json.dumps(val))})) if ch == "obj" else (lambda: parser.parse_args([f"--{KEY}={text}"]))
+            o = observe_fix(parser, KEY, call, alpha=alpha_any)
+            if o is not None and "error" not in o and po is not None and "error" not in po:
+                o.update({"pfirst": po["first"], "pser": po["ser"], "pjser": po["jser"], "skip": SKIPPED})
+                o["notes"]["plain_route"] = {"given": pval, "yaml_raised": po["draised"], "json_raised": po["jdraised"]}
+            elif o is not None and "error" not in o:
+                o = {"error": f"the same spec is not accepted through the plain class type Base: {po}"}
+            out.append((ch, val, o))
     return {"label": label, "out": out}
 
 
@@ -434,6 +495,17 @@ def main(argv):
             meta.append({"x": dict(NONE), "chan": ch, "notes": notes, "src": "class-spec", "value": val})
             stats["by_channel"]["class-spec/" + ch] = stats["by_channel"].get("class-spec/" + ch, 0) + 1
             rep.note_nontrivial(r["label"] + "|" + ch + "|" + ty.canon(o["first"]))
+    for r in ty.run_jobs(callable_jobs(tier), work=_work_callable):  # round 4: the same through a Callable type, next to the plain route
+        for ch, val, o in r["out"]:
+            if o is None or "error" in o:
+                rep.violation(f"class-spec:not-parsed:{r['label']}:{ch}", f"{r['label']}: the class spec {val} is not accepted ({o})", {"value": val})
+                continue
+            notes = o.pop("notes")
+            o.update({"kind": "opqc", "t": {"k": "class", "v": [{"k": "name", "v": r["label"]}]}, "d": dict(NONE), "absent": False, "norm": True, "x": dict(NONE)})
+            obs.append(o)
+            meta.append({"x": dict(NONE), "chan": ch, "notes": notes, "src": "class-spec", "value": val})
+            stats["by_channel"]["callable-spec/" + ch] = stats["by_channel"].get("callable-spec/" + ch, 0) + 1
+            rep.note_nontrivial(r["label"] + "|" + ch + "|" + ty.canon(o["first"]))
     if stats.get("harness_errors"):
         stats["harness_error_samples"] = stats["harness_error_samples"][:5]
     stats["observations_model"] = sum(1 for m in meta if m["src"] == "model")
@@ -451,7 +523,7 @@ def main(argv):
             continue
         m = meta[n]
         t = o["t"]
-        how = describe(o, m) if o["kind"] != "opq" else f"add_argument('--k', type={o['t']['v'][0]['v']}) given {m['value']} ({m['chan']})"
+        how = describe(o, m) if o["kind"] not in ("opq", "opqc") else f"add_argument('--k', type={o['t']['v'][0]['v']}) given {m['value']} ({m['chan']})"
         info = {"type": ty.type_str(t), "t": t, "d": o["d"], "x": m["x"], "channel": m["chan"], "python": how, "observation": o, "notes": m["notes"],
                 "failed_clauses": cl, "source": m["src"]}
         where = f"{ty.type_str(t)}:{m['chan']}:{ty.canon(ty.norm(o['first']))[:60]}"
@@ -459,8 +531,13 @@ def main(argv):
         if not ref:
             rep.add_drift("real code is a fixed point as the property says, but not as the Alg transcription predicts", info)
             continue
-        if o["kind"] == "opq":
+        if o["kind"] in ("opq", "opqc"):
             for c in ref:
+                if c.startswith("ref/serialised") or c.startswith("ref/route"):  # (opqc only)
+                    fmt_ = "jser" if c.endswith("json") else "ser"
+                    rep.violation(f"class-spec:{c[4:]}:{o['t']['v'][0]['v']}:{m['chan']}", f"{o['t']['v'][0]['v']} given {m['value']} ({m['chan']}): {c[4:]} fails -- the parsed value is {ty.canon(o['first'])[:300]}, "
+                                  f"the dump holds {ty.canon(o[fmt_])[:300]}; through the plain class type Base the value is {ty.canon(o['pfirst'])[:300]} and the dump holds {ty.canon(o['p' + fmt_])[:300]}; {m['notes']}", info)
+                    continue
                 if c == "ref/dumpjson/other" and "Namespace is not JSON serializable" in str(m["notes"].get("json")):
                     # Namespace.as_dict converts the specs one container deep only (_namespace.py:221-224)
                     rep.violation(f"class-spec:json-dump-namespace-two-deep:{o['t']['v'][0]['v']}:{m['chan']}", f"{o['t']['v'][0]['v']} given {m['value']} ({m['chan']}): dump(cfg, format='json') raises "
